@@ -79,7 +79,7 @@ Step(ev) ==
     [] ev.a = "args" ->
          IF ev.obs.ret = "skipped" THEN Quiet("args")
          ELSE LET es == [i \in 1..Len(ev.arg.ents) |-> ArgEnt(ev.arg.src, EntsOf(ev)[i])] IN
-              DoorX("args", ev, o, Results(es, LAMBDA e : ArgRes(e, FALSE)))
+              DoorX("args", ev, o, ArgRs(es))
     [] ev.a = "nodes" -> DoorX("nodes", ev, o, NodeRs(ev))
     [] ev.a = "list" ->
          LET ix == Listed(o, ev.arg.match) IN
